@@ -50,7 +50,7 @@ def s_surface(draw):
     rd = draw(st.one_of(gen.ufloat(0, 44.5), gen.ufloat(0, 44.5), st.sampled_from([0.0, 44.5, 12.0])))
     rb = draw(st.one_of(gen.ufloat(0, 360), gen.ufloat(0, 360), st.sampled_from([0.0, 90.0, 180.0, 270.0])))
     return {"lat0": lat1, "lon0": lon1, "lat1": lat2, "lon1": lon2, "t0": t0, "t1": t1, "rdist": rd, "rbrg": rb,
-            "tc0": draw(st.integers(5, 8)), "tc1": draw(st.integers(5, 8)), "noref": draw(gen.uint(0, 29)) == 0, "as_datetime": draw(gen.uint(0, 3)) == 0,
+            "tc0": draw(st.integers(5, 8)), "tc1": draw(st.integers(5, 8)), "noref": draw(gen.uint(0, 29)) == 0, "as_datetime": draw(gen.uint(0, 3)) == 0, "int_receiver": draw(gen.uint(0, 5)) == 0,
             "ctx_bits0": draw(gen.ubits(15)), "ctx_bits1": draw(gen.ubits(15)), "ctx_icao": draw(gen.addresses),
             "df": draw(st.sampled_from([17, 17, 18]))}
 
@@ -59,6 +59,8 @@ def receiver(case):
     """First of {drawn receiver, target 0, target 1} that is within 45 NM and < 44 deg of longitude of both targets."""
     cands = [destination(case["lat0"], case["lon0"], case["rdist"], case["rbrg"]),
              (case["lat0"], case["lon0"]), (case["lat1"], case["lon1"])]
+    if case.get("int_receiver"):  # a receiver configured in whole degrees (Python ints)
+        cands.insert(0, (int(round(case["lat0"])), int(round(case["lon0"])) if round(case["lon0"]) != 180 else -180))
     for rl, ro in cands:
         if all(cpr.haversine_m(la, lo, rl, ro) <= 44.9 * cpr.NM and cpr.lon_diff(lo, ro) <= 44.0
                for (la, lo) in ((case["lat0"], case["lon0"]), (case["lat1"], case["lon1"]))):
